@@ -83,8 +83,10 @@ def fit_minuit_v1(fcn, bounds_dict={}, hesse=True, minos=False, **kwargs):
         m.minos()  # (var="")
         print("MINOS Time", time.time() - now)
     ndf = len(m.list_of_vary_param())
+    # the last point evaluated (by HESSE) is not the minimum: write it back
+    fcn.vm.set_all(dict(m.values))
     ret = FitResult(
-        dict(m.values), fcn, m.fval, ndf=ndf, success=m.migrad_ok()
+        fcn.get_params(), fcn, m.fval, ndf=ndf, success=m.migrad_ok()
     )
     ret.set_error(dict(m.errors))
     return ret
@@ -140,9 +142,9 @@ def fit_minuit_v2(fcn, bounds_dict={}, hesse=True, minos=False, **kwargs):
         m.minos()  # (var="")
         print("MINOS Time", time.time() - now)
     ndf = len(var_names)
-    ret = FitResult(
-        dict(zip(var_names, m.values)), fcn, m.fval, ndf=ndf, success=m.valid
-    )
+    # the last point evaluated (by HESSE) is not the minimum: write it back
+    fcn.vm.set_all(dict(zip(var_names, m.values)))
+    ret = FitResult(fcn.get_params(), fcn, m.fval, ndf=ndf, success=m.valid)
     # print(m.errors)
     ret.set_error(dict(zip(var_names, m.errors)))
     return ret
@@ -394,7 +396,7 @@ def fit_scipy(
         fcn.vm.set_bound(bounds_dict)
         return fit_newton_cg(fcn, method[:-2], True)
     elif method in ["iminuit"]:
-        m = fit_minuit(fcn)
+        m = fit_minuit(fcn, bounds_dict=bounds_dict)
         return m
     elif method in ["root"]:
         m = fit_root_fitter(fcn)
